@@ -36,6 +36,20 @@ def enumerate_cases(profile, D, depth):
     return cases, n_exec
 
 
+def enumerate_plan(plan, depth=2):
+    """plan: [(centre name, profile, D)] - the union of the deviation balls around several centres, deduplicated by text;
+    returns ([(sql, (st, trace, ndev, centre))], generator executions)"""
+    seen = {}
+    n_exec = 0
+    for name, profile, D in plan:
+        cs, n = enumerate_cases(profile, D, depth)
+        n_exec += n
+        for sql, (st, trace, ndev) in cs:
+            if sql not in seen or (name == "simple" and seen[sql][3] != "simple"):
+                seen[sql] = (st, trace, ndev, name)
+    return sorted(seen.items(), key=lambda kv: (kv[1][3] != "simple", kv[1][2], len(kv[0]), kv[0])), n_exec
+
+
 def _eval(task):
     st, dialect = task
     sql = sqlgen.render(st, sqlgen.R(dialect=dialect))
